@@ -573,6 +573,99 @@ pub fn run(ctx: &Ctx) {
             Ok(())
         },
     );
+    // many elements, little data per element
+    ctx.par_proptest("long-sparse-collections", ctx.tier.pick(2_000, 30_000), gen::arb_long_sparse, |(s, v), l| {
+        let tree = dynmap::shape_to_tree(s);
+        let mut ex = 0;
+        let t = sanitize(&tree, &mut ex);
+        if ex > 0 {
+            l.excluded_known += ex;
+            return Ok(());
+        }
+        let Ok(j) = serde_json::to_value(&Typed(s, v)) else { return Ok(()) };
+        l.class("long-sparse-collection");
+        check_json(&t, &j, false, l)?;
+        if let Ok(e) = ref_encode(s, v) {
+            check_bytes(&t, &e.bytes, l)?;
+            // the honest encoding of a value the encoder accepts is accepted by the decoder
+            let schema = schematree::to_owned_expected(&t);
+            if let (Ok(Ok(b)), Ok(Err(err))) = (no_panic(|| postcard_dyn::to_stdvec_dyn(&schema, &j)), no_panic(|| postcard_dyn::from_slice_dyn(&schema, &e.bytes))) {
+                if b == e.bytes {
+                    return Err(fail("dyn-total", format!("from_slice_dyn rejects ({:?}) the bytes to_stdvec_dyn produced for a {}-element collection", err, j.as_array().map(|a| a.len()).unwrap_or(0)), json!({"tree": t, "json": j})));
+                }
+            }
+        }
+        Ok(())
+    });
+    // input-driven recursion: long runs of one byte value under schemas of every kind, decoded on a thread with an ordinary
+    // (2 MiB) stack - recursion whose depth follows the input instead of the schema overflows it and is reported by the
+    // crash handler together with the pending case
+    {
+        let trees: Vec<Tree> = vec![
+            Tree::Schema,
+            Tree::Seq(Box::new(Tree::Schema)),
+            Tree::Struct("S".into(), TData::Struct(vec![("kind".to_string(), Tree::Schema), ("n".to_string(), Tree::U8)])),
+            Tree::Option(Box::new(Tree::Schema)),
+            Tree::Seq(Box::new(Tree::Seq(Box::new(Tree::U8)))),
+            Tree::Option(Box::new(Tree::Option(Box::new(Tree::Seq(Box::new(Tree::Option(Box::new(Tree::U8)))))))),
+            Tree::Map(Box::new(Tree::String), Box::new(Tree::Seq(Box::new(Tree::String)))),
+            Tree::Enum("E".into(), vec![("A".to_string(), TData::Unit), ("B".to_string(), TData::Newtype(Box::new(Tree::Seq(Box::new(Tree::U8)))))]),
+        ];
+        let lens = [1_000usize, 6_000, 30_000, 120_000];
+        let total = (trees.len() * 48 * lens.len()) as u64;
+        let trees = &trees;
+        ctx.par_range("byte-runs-on-a-2MiB-stack", total, move |i, l| {
+            let i = i as usize;
+            let t = &trees[i % trees.len()];
+            let b = ((i / trees.len()) % 48) as u8;
+            let n = lens[i / (trees.len() * 48)];
+            let mut input = vec![b; n];
+            input.extend_from_slice(&[0, 1, 0]);
+            l.class("byte-run-small-stack");
+            let r = std::thread::scope(|sc| {
+                std::thread::Builder::new()
+                    .stack_size(2 << 20)
+                    .spawn_scoped(sc, || {
+                        let mut inner = Local::new();
+                        let r = check_bytes(t, &input, &mut inner);
+                        (r, inner)
+                    })
+                    .expect("spawn")
+                    .join()
+            });
+            match r {
+                Ok((res, inner)) => {
+                    l.evals_n(inner.evals);
+                    l.nontrivial(&(i, "byte-run"));
+                    res
+                }
+                Err(_) => Err(fail("dyn-total", "decoding thread died", json!({"tree": t, "input_byte": b, "input_len": n}))),
+            }
+        });
+    }
+    // maps with non-string keys: objects whose keys are different spellings of the same key value
+    {
+        let key_trees = [Tree::U8, Tree::U32, Tree::I16, Tree::I64, Tree::Bool, Tree::Char, Tree::F32, Tree::Unit];
+        const KEYS: [&str; 16] = ["0", "-0", "+0", "00", "7", "07", "+7", "7.0", "7e0", "true", "True", "a", "", " 7", "255", "256"];
+        let total = (key_trees.len() * (1 << 10)) as u64;
+        let key_trees = &key_trees;
+        ctx.par_range("non-string-keyed-maps", total, move |i, l| {
+            let kt = &key_trees[(i as usize) % key_trees.len()];
+            let mask = (i as usize) / key_trees.len();
+            let tree = Tree::Map(Box::new(kt.clone()), Box::new(Tree::U8));
+            let mut obj = serde_json::Map::new();
+            let mut val = 1u64;
+            for (k, key) in KEYS.iter().enumerate() {
+                // subsets of up to 4 keys drawn by the mask (two 4-bit positions + their neighbours)
+                if k == mask % 16 || k == (mask / 16) % 16 || (mask / 256) & (1 << (k % 4)) != 0 && k < 4 {
+                    obj.insert(key.to_string(), json!(val));
+                    val += 1;
+                }
+            }
+            l.class("non-string-keyed-map");
+            check_json(&tree, &Json::Object(obj), true, l)
+        });
+    }
     let n = ctx.tier.pick(20_000, 200_000);
     ctx.par_proptest(
         "deep-and-wide-schemas",
